@@ -471,6 +471,28 @@ theorem holder_bypass_bounded (M : Nat) : ∀ es s, (sys M).run es = some s →
   rw [Nat.mul_add]
   omega
 
+/-- The hypothesis `s.sav f = false` of `holder_bypass_bounded` cannot be dropped: a fiber that
+    sits in a run queue in state SAVING_STATE_TO_WAIT is bypassed for as long as the thread it
+    parked on takes to complete the context switch.  Thread 1 steals fiber 1 and runs it, fiber 1
+    parks (SAVING), fiber 0 on thread 0 wakes it at once, and thread 1 makes no further step.
+    Fibers 0 and 2 then yield to each other on thread 0: for every `n` an accepted continuation
+    without `sched`, without a steal and without a run of fiber 1, with `2·n` context switches on
+    the thread that holds fiber 1 — 3 fibers exist.  (fiber_scheduler_next skips fiber 1 `2·n`
+    times; the moment thread 1 performs `saved 1 1` the fiber is ready and the bound applies.) -/
+theorem saving_fiber_bypassed_unboundedly (M : Nat) (n : Nat) : ∃ s0 s',
+    (sys M).run [.sched 0 1, .sched 0 2, .steal 1 0 .to 1, .pushed 1 .frm 1, .pop 1 1,
+      .switch 1 1, .finish 1 true, .sched 0 1] = some s0 ∧
+    (sys M).runFrom s0 (savingSkipped n) = some s' ∧
+    s0.sav 1 = true ∧ QueuedOn 0 1 s0 ∧ QueuedOn 0 1 s' ∧ s0.busy.length = 3 ∧
+    (∀ e ∈ savingSkipped n, isSched e = false) ∧ (∀ e ∈ savingSkipped n, isRunOf 1 e = false) ∧
+    stealsOf 1 (savingSkipped n) = 0 ∧
+    holderSwitches M 1 s0 (savingSkipped n) = 2 * n := by
+  obtain ⟨s0, h0, hp0, hb0⟩ := sv_setup M
+  obtain ⟨s', h1, hp1, _, hc⟩ := saving_run M n hp0
+  obtain ⟨c1, c2⟩ := saving_props n
+  exact ⟨s0, s', h0, h1, hp0.sav1, Or.inr (by simp [hp0.to0]), Or.inr (by simp [hp1.to0]), hb0,
+    fun e he => (c1 e he).1, fun e he => (c1 e he).2, c2, hc⟩
+
 /-- The same with fibers being created / woken meanwhile (`f` itself is not: it is ready, not
     parked): every `sched` costs `f` at most 2 more bypasses. -/
 theorem holder_bypass_bounded_with_wakeups (M : Nat) : ∀ es s, (sys M).run es = some s →
